@@ -574,8 +574,10 @@ def run_check(pid, tier, jobs, meta, seed=0, procs=None, job_timeout=None, extra
         property_id=pid, tier=tier, seed=seed, level=meta.get("level", "other"), coverage=cov,
         assumptions=sorted(assumptions)[:60] + meta.get("assumptions", []), wall_s=round(wall, 2), violations=len(violations),
     )
-    os.makedirs(os.path.join(VERIF, "evidence"), exist_ok=True)
-    json.dump(evid, open(os.path.join(VERIF, "evidence", "%s.json" % pid), "w"), indent=1)
+    # evidence describes a run against /repo itself; a run against a scratch copy (bin/try_seed) writes into that copy instead
+    edir = os.path.join(VERIF, "evidence") if REPO == "/repo" else os.path.join(REPO, ".evidence")
+    os.makedirs(edir, exist_ok=True)
+    json.dump(evid, open(os.path.join(edir, "%s.json" % pid), "w"), indent=1)
     print("%s %s: obligations=%d discharged=%d sat=%d unknown=%d facts=%d/%d twins=%d/%d selftest_jobs=%d wall=%.1fs" % (
         pid, tier, cov["obligations"], cov["discharged"], n_sat, n_unknown, fact_ok, fact_count, twins_replayed, n_twins, st_ok, wall), flush=True)
     if violations:
